@@ -32,7 +32,7 @@ CHECKS.update({
         'text': 'State graph of the real pl.schedule / pl.farm / pl.dag code per engine, explored breadth first to a '
         'fixpoint under the request budget; at every release (return of next_job_batch and every task message '
         'built by farm._put) the upstream closure computed by the generator must have nothing pending or '
-        'executing for the target, where executing is the harness ground truth decoded from worker transports. Engines include an input shared by an analyzer and a regression.',
+        'executing for the target, where executing is the harness ground truth decoded from worker transports. Engines include an input shared by an analyzer and a regression. Also lopsided diamonds (an ancestor on the same level as its descendant; both mirror images, both declaration orders) and a join of two depth-3 chains.',
         'note': _SCHED_NOTE,
     },
     'C03': {
@@ -53,7 +53,7 @@ CHECKS.update({
         'upstream stays pending; liveness on the explored graph restricted to dispatch/reply events: no cycle '
         '(Tarjan SCC) and every sink is quiescent. The last clause (every waiter on "queue empty" / "nothing '
         'executing" is eventually satisfied) is decided with the real waiter threads by the drain-and-run probe of C12. '
-        'Fault event: a dispatch during which the first db.next() draw raises (<=1 quick, <=2 thorough per history). Second fault event: a reply arriving while the history journal cannot be written.',
+        'Fault event: a dispatch during which the first db.next() draw raises (<=1 quick, <=2 thorough per history). Second fault event: a reply arriving while the history journal cannot be written. After a fault-free dispatch the farm holds no released job it built no task for; timer jobs on a data base without targets and with two events of one algorithm.',
         'note': _SCHED_NOTE,
     },
     'C05': {
@@ -89,7 +89,7 @@ CHECKS.update({
         'factory styles, plus hand-picked deep shapes, is written as a real package, scanned by pl.scan and built by '
         'pl.dag.Construct; node sets, edge sets (value / state-vector / algorithm / task level), one object per '
         'tag, parents, ancestry (transitive closure) and the feedback map are compared with the description; deep and '
-        'canonical shapes also under a two-component base package. Self-registering packages that begin with a DAWGIE_IGNORE class (complete template / abstract base).',
+        'canonical shapes also under a two-component base package. Self-registering packages that begin with a DAWGIE_IGNORE class (complete template / abstract base). One algorithm name in two tasks; hand-written factories handing out less than the package defines.',
         'note': 'graphviz rendering (pydot.Dot.write_svg) is stubbed; self loops created by trimming inside one package '
         'are ignored; node level is not checked (sort heuristic only).',
     },
@@ -112,7 +112,7 @@ CHECKS.update({
         'patterns and every rule-conforming DAG engine must be accepted by tools.compliant._verify and then build '
         'and schedule without error; each mix with exactly one of 28 breakage kinds at every applicable algorithm / '
         'factory position must be rejected; the exit status of python -m dawgie.tools.compliant is compared with the '
-        'in-process verdict for a representative of every breakage kind and every valid mix. The command-line runs do not put the engine on PYTHONPATH, start from another directory and include engines under a two-component base package.',
+        'in-process verdict for a representative of every breakage kind and every valid mix. The command-line runs do not put the engine on PYTHONPATH, start from another directory and include engines under a two-component base package. Breakages include a value class that pickles but cannot be loaded; valid packages include Monday events and packages that begin with an ignored class.',
         'note': 'any exception inside a rule counts as a rejection (as the gate does); the git/merge steps of tools.submit are not run.',
     },
 })
@@ -128,7 +128,7 @@ CHECKS.update({
         'variants, partial state vector, in-place overwrite) written through the real Interface.update; on each store '
         'and after single mutations (reopen from disk, add target, overwrite, remove) every load in runs x targets x '
         'algorithms x version configurations goes through the real Dataset.load and every slot is compared with a '
-        'reference dictionary (exact run, else highest run of the same identity, else the same sentinel object). A loaded value modified in place never changes what a later load returns; Dataset.load(ALG_REF) from another task loads the referenced task\'s entry.',
+        'reference dictionary (exact run, else highest run of the same identity, else the same sentinel object). A loaded value modified in place never changes what a later load returns; Dataset.load(ALG_REF) from another task loads the referenced task\'s entry. Entries under run id -1; a target added explicitly that no load had registered.',
         'note': _STORE_NOTE,
     },
     'C07': {
@@ -226,7 +226,7 @@ CHECKS.update({
         'call the condition of the strongest priority submitted since the last reset holds at that instant, the call is '
         'accepted, at most one per reload cycle; refused submissions change nothing; from every state with an accepted '
         'submission outstanding, draining the work and running every waiter reaches update_trigger. fe.api.cmd_reset is '
-        'an event of one configuration (reset = reload now; a refused reset changes nothing). Deviation: the submitting client has gone before the answer (Request.finish raises); one configuration uses the legacy fe.submit.Process.',
+        'an event of one configuration (reset = reload now; a refused reset changes nothing). Deviation: the submitting client has gone before the answer (Request.finish raises); one configuration uses the legacy fe.submit.Process. One configuration lets the pipeline leave running for an archive and come back at any moment while a waiter polls.',
         'note': _FSM_NOTE + '; bounds: (2 submissions, 1 run request, 2 reload cycles), (1 submission, 3 run requests) and (2 submissions, 1 run request, 1 cycle, 1 reset).',
     },
 })
@@ -243,7 +243,7 @@ CHECKS.update({
         '(factory, target, run 0 for regressions) match the released unit; the run id is the one the triggering event '
         'carried, else db.next() drawn exactly once per released algorithm; queue conservation at every dispatch '
         '(released + queued = sent + queued); an engine whose algorithms ask for cloud placement (where() / history hint) '
-        'on a farm without cloud agency; exceptions out of dispatch are violations. A reload executes the body of the real FSM.load (order of notify_all and clear). Worker tier: Algorithm.abort() answers follow the farm\'s current state.',
+        'on a farm without cloud agency; exceptions out of dispatch are violations. A reload executes the body of the real FSM.load (order of notify_all and clear). Worker tier: Algorithm.abort() answers follow the farm\'s current state. The dispatch that takes the pipeline into the archive leaves no worker registered or waiting; one event released in several batches draws a run id per batch.',
         'note': _SCHED_NOTE + '; cloud (AWS) placement is out of reach; db.next() is a harness constant in this tier '
         '(strict monotonicity of next() against stored runs is decided in C08).',
     },
@@ -256,7 +256,7 @@ CHECKS.update({
         'further than one period ahead. (b) real periodics/defer/complete + farm on the virtual reactor and clock, 7 '
         'engines x 5 boot instants, all interleavings of timer / dispatch / reply / reload over a 3-period horizon: a '
         'firing queues exactly the known targets, a boot event fires once per process (also across a reload), every '
-        'occurrence of a weekly / monthly event is served within its period. One completion per history may arrive while the journal cannot be written; a unit the scheduler believes executing must exist in the farm batch, the cluster queue or with a worker.',
+        'occurrence of a weekly / monthly event is served within its period. One completion per history may arrive while the journal cannot be written; a unit the scheduler believes executing must exist in the farm batch, the cluster queue or with a worker. Every entry of the work queue has something pending or executing.',
         'note': 'a moment earlier on the current day counts as due (as the code treats it); the farm dispatches before '
         'virtual time passes; a unit may outlive one time step.',
     },
